@@ -183,6 +183,7 @@ template<typename R, typename... Args> struct Sys {
         for (int k : has_subject) if (matches(p, U->all_keys[k])) keys_with_subject++;
         std::vector<Call> got = g_calls;
         std::sort(got.begin(), got.end()); std::sort(want.begin(), want.end());
+        if (c13) return;      // the C13 run does not judge deliveries against the model (that is C06); it compares them with the same history without its shrink calls, see step()
         if (!(got == want)) {
             std::string a, b; for (auto &c : got) a += fmt("%d(%s) ", c.obs, c.args.c_str()); for (auto &c : want) b += fmt("%d(%s) ", c.obs, c.args.c_str());
             bad(c13 ? "shrink:delivery-changed" : "model:delivery", fmt("%snotify(%s) invoked observers [%s], expected exactly the observers under matching keys of the same depth, each once, with the passed values: [%s]", ctx, pat_str(p).c_str(), a.c_str(), b.c_str()));
@@ -190,10 +191,18 @@ template<typename R, typename... Args> struct Sys {
         if (ret != keys_with_subject) bad("model:notify-count", fmt("%snotify(%s) returned %zu, but %zu matched keys hold a subject", ctx, pat_str(p).c_str(), ret, keys_with_subject));
     }
 
+    // what every probe pattern delivers in the current state (observer ids and received values, sorted)
+    std::vector<std::vector<Call>> all_deliveries() {
+        std::vector<std::vector<Call>> out;
+        for (size_t pi = 0; pi < U->patterns.size(); pi++) { g_calls.clear(); S::notify(*router, K.pat_rk((int)pi)); std::vector<Call> got = g_calls; std::sort(got.begin(), got.end()); out.push_back(std::move(got)); }
+        g_calls.clear();
+        return out;
+    }
+
     // the full, non-mutating examination of a state (done once per distinct state)
     void examine() {
         std::set<int> S0 = stored();
-        for (size_t pi = 0; pi < U->patterns.size(); pi++) check_notify((int)pi, {}, "");
+        if (!c13) for (size_t pi = 0; pi < U->patterns.size(); pi++) check_notify((int)pi, {}, "");
         // stored keys are prefix-closed, contain every key with a live subscription, exists(pattern) and depth() agree with them (C13's clauses: not judged by the C06 run)
         if (!c13) return;
         size_t maxlen = 0;
@@ -245,7 +254,7 @@ template<typename R, typename... Args> struct Sys {
             router->shrink(K.pat_rk(pi));
             std::set<int> after = stored();
             for (auto it = has_subject.begin(); it != has_subject.end();) if (!after.count(*it)) it = has_subject.erase(it); else ++it;
-            if (!check) break;
+            if (!check || !c13) break;      // the removal rules are C13's clauses: not judged by the C06 run (which still compares every delivery after the shrink with the model)
             for (int k : after) if (!before.count(k)) bad("shrink:key-appeared", "shrink(" + pat_str(p) + ") made key " + path_str(U->all_keys[k]) + " appear");
             for (int k : before) if (!after.count(k)) {
                 const Path &gone = U->all_keys[k];
@@ -295,6 +304,21 @@ template<typename R, typename... Args> struct Sys {
             k += "|"; for (auto &s : subs) if (s.live) k += fmt("%d@%d,", s.obs, s.key);      // which of the history's observers are live (ids matter to the oracle only)
 
             if (full) examine();
+            bool has_shrink = o && o->kind == SHRINK; for (auto &p : h) has_shrink |= p.kind == SHRINK;
+            if (full && c13 && has_shrink) {
+                // "shrink never changes what notify delivers": the same history without its shrink calls must deliver exactly the same, pattern by pattern (no reference model involved)
+                auto with = all_deliveries();
+                g_calls.clear(); g_self_invalidate.clear(); K.clear();
+                handles.clear(); router = std::make_unique<R>(); handles.reserve(64); subs.clear(); has_subject.clear();
+                for (auto &p : h) if (p.kind != SHRINK) apply(p, false);
+                if (o && o->kind != SHRINK) apply(*o, false);
+                auto without = all_deliveries();
+                for (size_t pi = 0; pi < with.size(); pi++) if (!(with[pi] == without[pi])) {
+                    std::string a, b; for (auto &c : with[pi]) a += fmt("%d(%s) ", c.obs, c.args.c_str()); for (auto &c : without[pi]) b += fmt("%d(%s) ", c.obs, c.args.c_str());
+                    bad("shrink:delivery-changed", fmt("notify(%s) invokes [%s] in this history, but [%s] in the same history without its shrink calls", pat_str(U->patterns[pi]).c_str(), a.c_str(), b.c_str()));
+                    break;
+                }
+            }
         }
         handles.clear(); router.reset();
         return k;
